@@ -220,6 +220,28 @@ func fakeLogAsm() string {
 	return `1000 0 MSTORE 0x` + common.Bytes2Hex(types.ModuleAddress.Bytes()) + ` CALLER ` + topicTransfer + ` 0x20 0 LOG3 STOP`
 }
 
+// fakeXferAsm: an (unregistered) token without a ledger: transfer(to, x) emits Transfer(caller, to, x),
+// transferFrom(from, to, x) emits Transfer(from, to, x), both answer true and move nothing; balanceOf and
+// totalSupply answer 0; every other selector (burn(uint256) included) succeeds silently.
+var fakeXferAsm = `
+  0 CALLDATALOAD 0xE0 SHR
+  DUP1 0xa9059cbb EQ @f_transfer JUMPI
+  DUP1 0x23b872dd EQ @f_transferFrom JUMPI
+  DUP1 0x70a08231 EQ @f_zero JUMPI
+  DUP1 0x18160ddd EQ @f_zero JUMPI
+  STOP
+f_zero:
+  0 0 MSTORE 0x20 0 RETURN
+f_transfer:
+  36 CALLDATALOAD 0 MSTORE
+  4 CALLDATALOAD CALLER ` + topicTransfer + ` 0x20 0 LOG3
+  1 0 MSTORE 0x20 0 RETURN
+f_transferFrom:
+  68 CALLDATALOAD 0 MSTORE
+  36 CALLDATALOAD 4 CALLDATALOAD ` + topicTransfer + ` 0x20 0 LOG3
+  1 0 MSTORE 0x20 0 RETURN
+`
+
 var pegInitSupply, _ = new(big.Int).SetString("1000000000000000000000000", 10) // constructor mint of the two malicious Solidity tokens
 var maxU256 = new(big.Int).Sub(new(big.Int).Lsh(big.NewInt(1), 256), big.NewInt(1))
 
@@ -233,16 +255,26 @@ type pegPair struct {
 
 type pegEnv struct {
 	*Env
-	pairs map[string]*pegPair // by kind, plus the bystanders "by-coin" and "by-ext"
+	pairs map[string]*pegPair // by kind, plus the other token contracts (pegByNames)
 	abi   abi.ABI
+	// the logs of the receipt of the last successful Ethereum transaction
+	lastLogs []*evmtypes.Log
 }
 
 var pegBase *pegEnv
 
 const pegByScript = 600 // tokens of each bystander pair held by the script contract in the base state
 
-// the bystander pairs a script transaction can also call: selector -> name
-var pegByNames = []string{"by-coin", "by-ext"}
+// the other token contracts a script transaction can also call (pegCall.T - 1 = index; the Coq model's
+// contract id = pegCall.T): two registered and enabled pairs (coin-origin, token-origin), a registered but
+// DISABLED coin-origin pair, an UNREGISTERED honest ERC20 (the compiled ERC20MinterBurnerDecimals: it has
+// burn(uint256)), an UNREGISTERED hand-assembled token that only emits Transfer logs
+var pegByNames = []string{"by-coin", "by-ext", "by-dis", "unreg", "fake"}
+
+const (
+	pegNBy  = 5
+	pegFake = 5 // pegCall.T of the log-only token
+)
 
 const (
 	pegSrcChannel = "channel-292"
@@ -369,6 +401,46 @@ func pegBaseEnv() *pegEnv {
 	if _, err := e.runMsg(types.NewMsgConvertCoin(sdk.NewInt64Coin(cp.Denom, pegByScript), pegAddr[pScript], pegAcc(pH1))); err != nil {
 		panic(err)
 	}
+	// every holder owns tokens of both pairs (transferFrom by the script contract)
+	for _, h := range []int{pH2, pH3} {
+		e.mustEth(pDeployer, hp.Contract, e.pack("mint", pegAddr[h], big.NewInt(800)))
+	}
+	for _, h := range []int{pH1, pH3} {
+		if _, err := e.runMsg(types.NewMsgConvertCoin(sdk.NewInt64Coin(cp.Denom, 500), pegAddr[h], pegAcc(pH1))); err != nil {
+			panic(err)
+		}
+	}
+	// a registered coin-origin pair with converted funds whose conversion is then DISABLED
+	dp := e.registerCoin("by-dis", pegVoucher("ujuno"), "juno")
+	e.pairs["by-dis"] = dp
+	if err := testutil.FundAccount(e.Ctx, e.App.BankKeeper, pegAcc(pH1), sdk.NewCoins(sdk.NewInt64Coin(dp.Denom, 5000))); err != nil {
+		panic(err)
+	}
+	for _, h := range []int{pH1, pH2, pH3, pScript} {
+		if _, err := e.runMsg(types.NewMsgConvertCoin(sdk.NewInt64Coin(dp.Denom, int64(600+100*(h%4))), pegAddr[h], pegAcc(pH1))); err != nil {
+			panic(err)
+		}
+	}
+	if _, err := e.App.Erc20Keeper.ToggleConversion(e.Ctx, dp.Denom); err != nil {
+		panic(err)
+	}
+	// an honest ERC20 (same compiled contract: it has burn(uint256)) that is NOT registered
+	un := e.deploy(pDeployer, ctor(contracts.ERC20MinterBurnerDecimalsContract, "Unregistered", "UNR", uint8(18)))
+	e.pairs["unreg"] = &pegPair{Kind: "unreg", Denom: types.CreateDenom(un.String()), Contract: un}
+	for _, h := range []int{pH1, pH2, pH3, pScript} {
+		e.mustEth(pDeployer, un, e.pack("mint", pegAddr[h], big.NewInt(int64(700+100*(h%4)))))
+	}
+	// a hand-assembled token that only emits Transfer logs, NOT registered
+	fk := common.HexToAddress("0xFA4E000000000000000000000000000000000005")
+	e.install(fk, assemble(fakeXferAsm))
+	e.pairs["fake"] = &pegPair{Kind: "fake", Denom: types.CreateDenom(fk.String()), Contract: fk}
+	// the holders allow the script contract to move their tokens (infinite allowance: OpenZeppelin's
+	// transferFrom then neither lowers it nor emits an Approval event)
+	for _, name := range []string{"by-coin", "by-ext", "by-dis", "unreg"} {
+		for _, h := range []int{pH1, pH2, pH3} {
+			e.mustEth(h, e.pairs[name].Contract, e.pack("approve", pegAddr[pScript], maxU256))
+		}
+	}
 	pegBase = e
 	return e
 }
@@ -414,6 +486,10 @@ func (e *pegEnv) ethTx(from int, to common.Address, data []byte) (ok bool, errSt
 		return false, "error: " + err.Error()
 	}
 	write()
+	e.lastLogs = nil
+	if !res.Failed() {
+		e.lastLogs = res.Logs
+	}
 	return !res.Failed(), res.VmError
 }
 
@@ -441,10 +517,19 @@ type pegOp struct {
 
 // pegCall: one CALL of the script contract: token.transfer(to, x).
 type pegCall struct {
-	T     int    `json:"t,omitempty"`     // 0 the pair's own token; 1 / 2 the token of the bystander pair by-coin / by-ext (always to the module, always tolerated)
+	T     int    `json:"t,omitempty"`     // token contract: 0 the pair's own token; 1..5 = by-coin, by-ext, by-dis (disabled pair), unreg (unregistered honest ERC20), fake (unregistered, logs only); calls with T > 0 are always tolerated
+	F     int    `json:"f,omitempty"`     // T > 0 only: 0 = token.transfer(to, x) of the contract's own tokens; 1..3 = token.transferFrom(holder F, to, x)
 	To    int    `json:"to,omitempty"`    // recipient (0 = the erc20 module address)
 	X     string `json:"x,omitempty"`     // amount
 	Catch bool   `json:"catch,omitempty"` // a reverting call is tolerated; otherwise the whole transaction reverts
+}
+
+// from: the actor whose tokens the call moves (the `from` of the Transfer log)
+func (c pegCall) from() int {
+	if c.T > 0 && c.F >= pH1 && c.F <= pH3 {
+		return c.F
+	}
+	return pScript
 }
 
 type pegInput struct {
@@ -464,12 +549,13 @@ type pegSnap struct {
 	IsContract bool
 	Others     string // digest of everything that must not move: bystander pairs, the base denom
 	idxNote    string
-	By         [2]pegBy // the bystander pairs by-coin, by-ext
+	By         [pegNBy]pegBy // the other token contracts (pegByNames)
 	Base       string   // balances in the base denomination
 }
 
 // pegBy: the observable state of a bystander pair
 type pegBy struct {
+	Reg, En, Code bool // as the real registry / account keeper report them
 	Supply, Total *big.Int
 	Coin, Tok     [pegNA]*big.Int
 }
@@ -481,7 +567,7 @@ func (b *pegBy) clone() pegBy {
 		}
 		return new(big.Int).Set(x)
 	}
-	c := pegBy{Supply: cp(b.Supply), Total: cp(b.Total)}
+	c := pegBy{Reg: b.Reg, En: b.En, Code: b.Code, Supply: cp(b.Supply), Total: cp(b.Total)}
 	for a := 0; a < pegNA; a++ {
 		c.Coin[a], c.Tok[a] = cp(b.Coin[a]), cp(b.Tok[a])
 	}
@@ -491,6 +577,8 @@ func (b *pegBy) clone() pegBy {
 // diff: the first observable in which the pair's state `got` differs from what the property demands (`b`)
 func (b *pegBy) diff(got *pegBy) string {
 	switch {
+	case b.Reg != got.Reg || b.En != got.En || b.Code != got.Code:
+		return fmt.Sprintf("registered/enabled/code are %v/%v/%v, the property demands %v/%v/%v", got.Reg, got.En, got.Code, b.Reg, b.En, b.Code)
 	case !bigEq(b.Supply, got.Supply):
 		return fmt.Sprintf("coin supply is %v, the property demands %v", got.Supply, b.Supply)
 	case !bigEq(b.Total, got.Total):
@@ -507,11 +595,11 @@ func (b *pegBy) diff(got *pegBy) string {
 	return ""
 }
 
-func pegOthers(note string, by *[2]pegBy, base string) string {
+func pegOthers(note string, by *[pegNBy]pegBy, base string) string {
 	parts := []string{}
 	for i, name := range pegByNames {
 		q := &by[i]
-		parts = append(parts, fmt.Sprintf("%s:supply=%s,total=%v", name, q.Supply, q.Total))
+		parts = append(parts, fmt.Sprintf("%s:reg=%v,en=%v,code=%v,supply=%s,total=%v", name, q.Reg, q.En, q.Code, q.Supply, q.Total))
 		for a := 0; a < pegNA; a++ {
 			parts = append(parts, fmt.Sprintf("%s/%v", q.Coin[a], q.Tok[a]))
 		}
@@ -563,6 +651,13 @@ func (e *pegEnv) snapshot(p *pegPair) pegSnap {
 	for i, name := range pegByNames {
 		q := e.pairs[name]
 		b := &s.By[i]
+		if qid := ek.GetERC20Map(e.Ctx, q.Contract); len(qid) > 0 {
+			if tp, found := ek.GetTokenPair(e.Ctx, qid); found {
+				b.Reg, b.En = true, tp.Enabled
+			}
+		}
+		qacc := e.App.EvmKeeper.GetAccountWithoutBalance(e.Ctx, q.Contract)
+		b.Code = qacc != nil && qacc.IsContract()
 		b.Supply = e.App.BankKeeper.GetSupply(e.Ctx, q.Denom).Amount.BigInt()
 		b.Total = e.callView(q.Contract, "totalSupply")
 		for a := 0; a < pegNA; a++ {
@@ -755,19 +850,24 @@ func (e *pegEnv) apply(p *pegPair, op pegOp) (int, string) {
 			return 3, "no key for this actor"
 		}
 		var script []byte
+		e.lastLogs = nil
 		for _, c := range op.Calls {
 			cx := pegAmt(c.X)
-			if cx.Sign() < 0 || cx.Cmp(maxU256) > 0 || c.To < 0 || c.To >= pegNA || c.T < 0 || c.T > len(pegByNames) {
+			if cx.Sign() < 0 || cx.Cmp(maxU256) > 0 || c.To < 0 || c.To >= pegNA || c.T < 0 || c.T > len(pegByNames) || c.F < 0 || c.F > pH3 {
 				return 9, "call outside uint256 / the actors"
 			}
-			target, to, flags := p.Contract, pegAddr[c.To], byte(0)
+			target, flags := p.Contract, byte(0)
 			if c.T > 0 {
-				target, to, flags = e.pairs[pegByNames[c.T-1]].Contract, pegAddr[pM], 1
+				target, flags = e.pairs[pegByNames[c.T-1]].Contract, 1
 			}
 			if c.Catch {
 				flags = 1
 			}
-			script = append(script, encCall(flags, target.Bytes(), big.NewInt(0), e.pack("transfer", to, cx))...)
+			payload := e.pack("transfer", pegAddr[c.To], cx)
+			if c.from() != pScript {
+				payload = e.pack("transferFrom", pegAddr[c.from()], pegAddr[c.To], cx)
+			}
+			script = append(script, encCall(flags, target.Bytes(), big.NewInt(0), payload)...)
 		}
 		ok, s := e.ethTx(op.A, pegAddr[pScript], script)
 		if ok {
@@ -851,14 +951,93 @@ func (s *pegSnap) obs(res int, errStr string) pegObs {
 	return o
 }
 
-func (s *pegSnap) coq(res int) string {
+func pegObsCoq(res int, reg, en, on, hook bool, coin, tok *[pegNA]*big.Int, supply, total *big.Int, code bool) string {
 	cs, ts := []string{}, []string{}
 	for a := 0; a < pegNA; a++ {
-		cs = append(cs, coqZ(s.Coin[a]))
-		ts = append(ts, coqOptZ(s.Tok[a]))
+		cs = append(cs, coqZ(coin[a]))
+		ts = append(ts, coqOptZ(tok[a]))
 	}
-	return fmt.Sprintf("(mkobs %d%%N %s %s %s %s %s %s %s %s %s)", res, coqBool(s.Reg), coqBool(s.En), coqBool(s.Erc20On), coqBool(s.HookOn),
-		coqList(cs), coqZ(s.Supply), coqList(ts), coqOptZ(s.Total), coqBool(s.IsContract))
+	return fmt.Sprintf("(mkobs %d%%N %s %s %s %s %s %s %s %s %s)", res, coqBool(reg), coqBool(en), coqBool(on), coqBool(hook),
+		coqList(cs), coqZ(supply), coqList(ts), coqOptZ(total), coqBool(code))
+}
+
+func (s *pegSnap) coq(res int) string {
+	return pegObsCoq(res, s.Reg, s.En, s.Erc20On, s.HookOn, &s.Coin, &s.Tok, s.Supply, s.Total, s.IsContract)
+}
+
+// coqWorld: the observable state of every token contract of the multi-contract model (Coq: list (N * bool * obs)):
+// contract id, coin-origin?, observation.  The pair under test (id 0) is part of it when its token is an
+// honest ledger (kinds coin / honest).
+func (e *pegEnv) coqWorld(p *pegPair, withOwn bool, s *pegSnap) string {
+	parts := []string{}
+	if withOwn {
+		parts = append(parts, fmt.Sprintf("(0%%N, %s, %s)", coqBool(p.OwnerMod), s.coq(0)))
+	}
+	for i, name := range pegByNames {
+		b := &s.By[i]
+		parts = append(parts, fmt.Sprintf("(%d%%N, %s, %s)", i+1, coqBool(e.pairs[name].OwnerMod),
+			pegObsCoq(0, b.Reg, b.Reg && b.En, s.Erc20On, s.HookOn, &b.Coin, &b.Tok, b.Supply, b.Total, b.Code)))
+	}
+	return "[" + strings.Join(parts, ";\n      ") + "]"
+}
+
+func pegActorOf(topic string) int {
+	a := common.BytesToAddress(common.HexToHash(topic).Bytes())
+	for i := 0; i < pegNA; i++ {
+		if pegAddr[i] == a {
+			return i
+		}
+	}
+	return 98
+}
+
+// coqLogs: the logs of the receipt, in order: emitting contract (model id), the log, and whether the real
+// registry knew the emitting contract as a token pair before the transaction
+func (e *pegEnv) coqLogs(p *pegPair, pre *pegSnap) string {
+	parts := []string{}
+	for _, l := range e.lastLogs {
+		addr := common.HexToAddress(l.Address)
+		id, reg := 99, false
+		if addr == p.Contract {
+			id, reg = 0, pre.Reg
+		}
+		for i, name := range pegByNames {
+			if addr == e.pairs[name].Contract {
+				id, reg = i+1, pre.By[i].Reg
+			}
+		}
+		lg := "(mklog LOther 0%N 0%N 0)"
+		switch {
+		case len(l.Topics) == 0:
+			lg = "(mklog LNoTopic 0%N 0%N 0)"
+		case len(l.Topics) == 3 && l.Topics[0] == topicTransfer && len(l.Data) == 32:
+			lg = fmt.Sprintf("(mklog LTransfer %d%%N %d%%N %s)", pegActorOf(l.Topics[1]), pegActorOf(l.Topics[2]), coqZ(new(big.Int).SetBytes(l.Data)))
+		case l.Topics[0] == topicApproval:
+			lg = "(mklog LApproval 0%N 0%N 0)"
+		}
+		parts = append(parts, fmt.Sprintf("(mkclog %d%%N %s, %s)", id, lg, coqBool(reg)))
+	}
+	return coqList(parts)
+}
+
+// coqMCase: one script transaction as a case of the multi-contract model: the world before, the calls
+// (contract id, from, to, amount, tolerated), the result, the receipt's logs, the world after.  "" when the
+// transaction called the token of a pair under test that is not an honest ledger (not part of that model).
+func (e *pegEnv) coqMCase(p *pegPair, op pegOp, res int, pre, post *pegSnap) string {
+	withOwn := p.Kind == "coin" || p.Kind == "honest"
+	calls := []string{}
+	for _, c := range op.Calls {
+		if c.T == 0 && !withOwn {
+			return ""
+		}
+		calls = append(calls, fmt.Sprintf("mkmcall %d%%N %d%%N %d%%N %s %s", c.T, c.from(), c.To, coqZ(pegAmt(c.X)), coqBool(c.Catch || c.T > 0)))
+	}
+	logs := "[]"
+	if res == 0 {
+		logs = e.coqLogs(p, pre)
+	}
+	return fmt.Sprintf("(mkmcase %s\n     %s\n     %d%%N %s %d%%N\n     %s\n     %s)", coqBool(pre.Erc20On && pre.HookOn), e.coqWorld(p, withOwn, pre),
+		op.A, coqList(calls), res, logs, e.coqWorld(p, withOwn, post))
 }
 
 func (op pegOp) coq() string {
@@ -987,19 +1166,43 @@ func subFrom(x **big.Int, d *big.Int) { *x = new(big.Int).Sub(*x, d) }
 // pegOracle: what property C10 demands of one step, computed from the
 // observations before and after it (never from the Coq model).  It returns the
 // first demand that the implementation did not meet.
-func pegOracle(p *pegPair, op pegOp, res int, pre, post *pegSnap, tr *pegTrack) string {
+func pegCallsStr(cs []pegCall) string {
+	parts := []string{}
+	for _, c := range cs {
+		name := "own"
+		if c.T >= 1 && c.T <= pegNBy {
+			name = pegByNames[c.T-1]
+		}
+		parts = append(parts, fmt.Sprintf("%s(%d->%d,%s)", name, c.from(), c.To, c.X))
+	}
+	return "[" + strings.Join(parts, " ") + "]"
+}
+
+func pegOracle(e *pegEnv, p *pegPair, op pegOp, res int, pre, post *pegSnap, tr *pegTrack) string {
 	x := pegAmt(op.X)
 	honest := tr.honestNow(p.Kind)
 	// frame: nothing but the pair under test moves; a successful script transaction may also have
 	// called the tokens of the bystander pairs: what the property demands of those is computed below
 	expOthers := pre.Others
 	if op.Op == "batch" && res == 0 {
-		expBy := pegForeignEffect(pre, op)
+		expBy := pegForeignEffect(e, pre, op)
 		expOthers = pegOthers(pre.idxNote, expBy, pre.Base)
 		for i, name := range pegByNames {
 			if d := expBy[i].diff(&post.By[i]); d != "" {
-				return fmt.Sprintf("the same transaction also called the token of the pair %s (the contract held %v of its tokens, hook on: %v): %s",
-					name, pre.By[i].Tok[pScript], pre.Erc20On && pre.HookOn, d)
+				return fmt.Sprintf("the transaction's calls were %s; token contract %s (registered: %v, enabled: %v, hook on: %v): %s",
+					pegCallsStr(op.Calls), name, pre.By[i].Reg, pre.By[i].En, pre.Erc20On && pre.HookOn, d)
+			}
+		}
+		// a transaction that never called this pair's token leaves the pair alone, whatever its token is
+		own := false
+		for _, c := range op.Calls {
+			own = own || c.T == 0
+		}
+		if !own {
+			keep := pre.clone()
+			keep.Others = post.Others
+			if d := keep.diff(post); d != "" {
+				return fmt.Sprintf("the transaction's calls were %s (none on this pair's token), but this pair changed: %s", pegCallsStr(op.Calls), d)
 			}
 		}
 	}
@@ -1277,26 +1480,33 @@ func pegOracle(p *pegPair, op pegOp, res int, pre, post *pegSnap, tr *pegTrack) 
 	return ""
 }
 
-// pegForeignEffect: what a successful script transaction does to the bystander pairs (both always
-// registered and enabled, both honest OpenZeppelin tokens): each tolerated transfer(module, x) that the
-// contract can afford moves x tokens to the module and, when the hook is on, converts exactly x:
-// by-coin (coin-origin): x tokens burned, x escrowed coins to the contract; by-ext: x coins minted to it.
-func pegForeignEffect(pre *pegSnap, op pegOp) *[2]pegBy {
-	by := [2]pegBy{pre.By[0].clone(), pre.By[1].clone()}
+// pegForeignEffect: what the property demands of a successful script transaction for the OTHER token
+// contracts it called (all honest OpenZeppelin tokens but the log-only one): each tolerated
+// transfer(to, x) / transferFrom(from, to, x) that `from` can afford moves x tokens; when the recipient is
+// the erc20 module address, the hook is on, x > 0 and the contract is a REGISTERED and ENABLED pair, that
+// transfer is a conversion request of `from` for exactly x: by-coin (coin-origin): x tokens burned, x
+// escrowed coins to `from`; by-ext: x coins minted to `from`.  A transfer of a disabled pair's token or of
+// an unregistered token to the module address is an ordinary transfer (the tokens stay with the module):
+// it has no effect on the coins, the escrow or the supply of ANY denomination.
+func pegForeignEffect(e *pegEnv, pre *pegSnap, op pegOp) *[pegNBy]pegBy {
+	var by [pegNBy]pegBy
+	for i := range by {
+		by[i] = pre.By[i].clone()
+	}
 	hook := pre.Erc20On && pre.HookOn
 	for _, c := range op.Calls {
-		if c.T < 1 || c.T > 2 {
+		if c.T < 1 || c.T > pegNBy || c.T == pegFake { // the log-only token has no ledger and is not registered
 			continue
 		}
 		q := &by[c.T-1]
-		cx := pegAmt(c.X)
-		if q.Tok[pScript] == nil || q.Tok[pM] == nil || q.Total == nil || q.Tok[pScript].Cmp(cx) < 0 {
-			continue
+		cx, from := pegAmt(c.X), c.from()
+		if q.Tok[from] == nil || q.Tok[c.To] == nil || q.Tok[pM] == nil || q.Total == nil || c.To == pZero || q.Tok[from].Cmp(cx) < 0 {
+			continue // reverts: tolerated
 		}
-		subFrom(&q.Tok[pScript], cx)
-		if hook && cx.Sign() > 0 {
-			addTo(&q.Coin[pScript], cx)
-			if c.T == 1 {
+		subFrom(&q.Tok[from], cx)
+		if c.To == pM && hook && cx.Sign() > 0 && q.Reg && q.En {
+			addTo(&q.Coin[from], cx)
+			if e.pairs[pegByNames[c.T-1]].OwnerMod {
 				subFrom(&q.Coin[pM], cx)
 				subFrom(&q.Total, cx)
 			} else {
@@ -1304,7 +1514,7 @@ func pegForeignEffect(pre *pegSnap, op pegOp) *[2]pegBy {
 				addTo(&q.Tok[pM], cx)
 			}
 		} else {
-			addTo(&q.Tok[pM], cx)
+			addTo(&q.Tok[c.To], cx)
 		}
 	}
 	return &by
@@ -1358,6 +1568,50 @@ func (tr *pegTrack) update(p *pegPair, op pegOp, res int) {
 	}
 }
 
+// pegBatchShape: distribution tags of the sequence of token contracts one transaction calls
+func pegBatchShape(cs []pegCall) []string {
+	out := []string{}
+	distinct := map[int]bool{}
+	conv := func(t int) bool { return t <= 2 }
+	for i, c := range cs {
+		distinct[c.T] = true
+		if !conv(c.T) && c.To == pM && pegAmt(c.X).Sign() > 0 {
+			out = append(out, "batch:ignored-contract-log-to-module:"+pegByNames[c.T-1])
+			// A ... B B: a convertible contract's log earlier, then the same ignored contract twice in a row
+			if i > 0 && cs[i-1].T == c.T {
+				for j := 0; j < i-1; j++ {
+					if conv(cs[j].T) {
+						out = append(out, "batch:A-B-B")
+					}
+				}
+			}
+		}
+		for j := 0; j+1 < i; j++ {
+			if cs[j].T == c.T && cs[i-1].T != c.T {
+				out = append(out, "batch:same-contract-non-adjacent")
+			}
+		}
+		if c.F != 0 && c.T > 0 {
+			out = append(out, "batch:transferFrom")
+		}
+	}
+	if len(distinct) >= 2 {
+		out = append(out, fmt.Sprintf("batch:%d-contracts", len(distinct)))
+	}
+	return out
+}
+
+// pegBatchValid: the calls are inside uint256 / the actors / the contracts (otherwise the harness refuses the op)
+func pegBatchValid(op pegOp) bool {
+	for _, c := range op.Calls {
+		cx := pegAmt(c.X)
+		if cx.Sign() < 0 || cx.Cmp(maxU256) > 0 || c.To < 0 || c.To >= pegNA || c.T < 0 || c.T > len(pegByNames) || c.F < 0 || c.F > pH3 {
+			return false
+		}
+	}
+	return true
+}
+
 // ---------------------------------------------------------------- one case
 func pegRunCase(id string, in pegInput) Case {
 	b := pegBaseEnv()
@@ -1368,7 +1622,7 @@ func pegRunCase(id string, in pegInput) Case {
 	e := b.fork()
 	tr := &pegTrack{burned: big.NewInt(0), honestKind: in.Kind == "coin" || in.Kind == "honest"}
 	pre := e.snapshot(p)
-	steps := []string{}
+	steps, mcases := []string{}, []string{}
 	obsAll := []pegObs{}
 	oracleMsg, class := "", ""
 	tags := map[string]bool{"kind:" + in.Kind: true}
@@ -1378,11 +1632,21 @@ func pegRunCase(id string, in pegInput) Case {
 		post := e.snapshot(p)
 		obsAll = append(obsAll, post.obs(res, errStr))
 		steps = append(steps, fmt.Sprintf("(%s, %s)", op.coq(), post.coq(res)))
+		if op.Op == "batch" && pegBatchValid(op) {
+			if m := e.coqMCase(p, op, res, &pre, &post); m != "" {
+				mcases = append(mcases, m)
+			}
+		}
 		name := op.Op
 		if op.Op == "eth" {
 			name = "eth-" + op.Call
 		}
 		tags[fmt.Sprintf("%s:%d", name, res)] = true
+		if op.Op == "batch" && res == 0 {
+			for _, t := range pegBatchShape(op.Calls) {
+				tags[t] = true
+			}
+		}
 		if res == 0 {
 			switch op.Op {
 			case "cc", "ce", "send", "recv", "ack", "timeout":
@@ -1412,7 +1676,7 @@ func pegRunCase(id string, in pegInput) Case {
 		}
 		// the first failure counts; a failure inside a known-finding class does not hide a later one outside it
 		if oracleMsg == "" || class != "" {
-			if m := pegOracle(p, op, res, &pre, &post, tr); m != "" {
+			if m := pegOracle(e, p, op, res, &pre, &post, tr); m != "" {
 				if cl := pegClass(p, op, tr); oracleMsg == "" || cl == "" {
 					oracleMsg = fmt.Sprintf("step %d (%s on a %s pair): %s", i, name, in.Kind, m)
 					class = cl
@@ -1430,7 +1694,7 @@ func pegRunCase(id string, in pegInput) Case {
 	kb, _ := json.Marshal(in)
 	return Case{
 		ID: id, Kind: "history", Input: in, Obs: obsAll,
-		Coq:      fmt.Sprintf("(%d%%N, [%s])", pegKindIdx(in.Kind), strings.Join(steps, ";\n   ")),
+		Coq:      fmt.Sprintf("(%d%%N, [%s],\n   [%s])", pegKindIdx(in.Kind), strings.Join(steps, ";\n   "), strings.Join(mcases, ";\n    ")),
 		CoqList:  "cases",
 		OracleOK: oracleMsg == "", OracleMsg: oracleMsg, Class: class,
 		Nontrivial: nOK >= 1, Key: string(kb), Tags: tl,
@@ -1634,7 +1898,7 @@ func pegGen(r *Rng, nops int) pegInput {
 			}
 			return holders[r.Intn(3)]
 		}
-		k := r.Intn(106)
+		k := r.Intn(113)
 		switch {
 		case k < 16, k >= 73 && k < 93:
 			a = rich(&coin)
@@ -1669,6 +1933,61 @@ func pegGen(r *Rng, nops int) pegInput {
 			}
 			left := new(big.Int).Set(tok[pScript])
 			var calls []pegCall
+			if k >= 106 {
+				// Transfer logs of SEVERAL token contracts of different registration status in a scripted
+				// order: a palette of 2-3 contracts (mostly one whose logs the hook must convert and one
+				// whose logs it must ignore), each call on one of them, often the same one again
+				palette := []int{r.Intn(3), 3 + r.Intn(3)}
+				if r.Chance(40) {
+					palette = append(palette, r.Intn(6))
+				}
+				if r.Chance(12) {
+					palette = []int{r.Intn(6), r.Intn(6)}
+				}
+				n = 2 + r.Intn(5)
+				last := palette[r.Intn(len(palette))]
+				for i := 0; i < n; i++ {
+					t := palette[r.Intn(len(palette))]
+					if i > 0 && r.Chance(35) {
+						t = last
+					}
+					last = t
+					c := pegCall{T: t, To: pM}
+					if r.Chance(22) {
+						c.To = anyActor()
+					}
+					if t == 0 {
+						v := big.NewInt(0)
+						if left.Sign() > 0 && r.Chance(90) {
+							v = r.Below(left)
+							v.Rsh(v, uint(1+r.Intn(3)))
+							v.Add(v, big.NewInt(1))
+						} else {
+							v = big.NewInt(int64(r.Intn(3)))
+						}
+						c.X, c.Catch = v.String(), r.Chance(30)
+						if v.Cmp(left) > 0 {
+							c.Catch = r.Chance(90)
+						} else {
+							left.Sub(left, v)
+						}
+					} else {
+						if r.Chance(55) {
+							c.F = holders[r.Intn(3)]
+						}
+						switch j := r.Intn(20); {
+						case j == 0:
+							c.X = "0"
+						case j == 1:
+							c.X = fmt.Sprint(900 + r.Intn(2000)) // mostly more than `from` holds
+						default:
+							c.X = fmt.Sprint(1 + r.Intn(70))
+						}
+					}
+					calls = append(calls, c)
+				}
+				n = 0
+			}
 			for i := 0; i < n; i++ {
 				switch j := r.Intn(100); {
 				case j < 22: // the token of another registered pair
